@@ -135,7 +135,90 @@ def replay_apply_file(inp):
     return {'reproduced': False}
 
 
+
+SCHED_SRC = {
+    'driver.F90': "subroutine driver\n  use pq_mod, only: p\n  use r_mod, only: r\n  use s_mod, only: s\n  implicit none\n"
+                  "  call p\n  call r\n  call s\nend subroutine driver\n",
+    'pq_mod.F90': "module pq_mod\n  implicit none\ncontains\n  subroutine p\n  end subroutine p\n  subroutine q\n"
+                  "  end subroutine q\nend module pq_mod\n",
+    'r_mod.F90': "module r_mod\n  implicit none\ncontains\n  subroutine r\n    use pq_mod, only: q\n    call q\n"
+                 "  end subroutine r\nend module r_mod\n",
+    's_mod.F90': "module s_mod\n  implicit none\ncontains\n  subroutine s\n    use pq_mod, only: p\n    call p\n"
+                 "  end subroutine s\nend module s_mod\n",
+}
+
+
+def replay_scheduler(inp):
+    """a small project (an ignored routine sharing a file with an active one; a diamond of callers) processed by probe
+    transformations for every manifest combination; checked against the scheduler graph's own item flags and edges"""
+    from loki import Scheduler, SchedulerConfig, Transformation, ProcedureItem
+    from loki.batch import ProcessingStrategy
+    from loki.frontend import FP
+    tmp = Path(tempfile.mkdtemp(prefix='c22_', dir='/var/tmp'))
+    try:
+        for name, src in SCHED_SRC.items():
+            (tmp / name).write_text(src)
+        config = SchedulerConfig.from_dict({
+            'default': {'mode': 'idem', 'role': 'kernel', 'expand': True, 'strict': True, 'enable_imports': False},
+            'routines': {'driver': {'role': 'driver'}, 'r': {'ignore': ['q']}}})
+        for file_graph in (False, True):
+            for proc_ignored in (False, True):
+                for reverse in (False, True):
+                    for plan in (False, True):
+                        sched = Scheduler(paths=[tmp], config=config, seed_routines=['driver'], frontend=FP, xmods=[tmp])
+                        ignored = {it.name for it in sched.items if it.is_ignored}
+                        procs = [it for it in sched.items if isinstance(it, ProcedureItem)]
+                        want = sorted(it.name for it in procs if proc_ignored or it.name not in ignored)
+                        edges = [(a.name, b.name) for a, b in sched.sgraph._graph.edges
+                                 if isinstance(a, ProcedureItem) and isinstance(b, ProcedureItem)]
+
+                        class Probe(Transformation):
+                            traverse_file_graph = file_graph
+                            recurse_to_modules = file_graph
+                            recurse_to_procedures = file_graph
+                            process_ignored_items = proc_ignored
+                            reverse_traversal = reverse
+                            item_filter = (ProcedureItem,)
+
+                            def __init__(self):
+                                self.calls, self.file_items = [], {}
+
+                            def transform_file(self, sourcefile, **kw):
+                                self.file_items[sourcefile.path.name] = tuple(i.name for i in kw.get('items') or ())
+                            plan_file = transform_file
+
+                            def transform_subroutine(self, routine, **kw):
+                                it = kw['item']
+                                self.calls.append((it.name, kw.get('role') == it.role, tuple(kw.get('targets') or ()) == tuple(it.targets)))
+                            plan_subroutine = transform_subroutine
+                        probe = Probe()
+                        sched.process(probe, proc_strategy=ProcessingStrategy.PLAN if plan else ProcessingStrategy.DEFAULT)
+                        setting = dict(traverse_file_graph=file_graph, process_ignored_items=proc_ignored,
+                                       reverse_traversal=reverse, plan=plan)
+                        got = [c[0] for c in probe.calls]
+                        if sorted(got) != want:
+                            return {'reproduced': True, 'setting': setting, 'applied_to': sorted(got), 'expected': want}
+                        bad = [c for c in probe.calls if not (c[1] and c[2])]
+                        if bad:
+                            return {'reproduced': True, 'setting': setting, 'wrong_role_or_targets': bad}
+                        if not proc_ignored:
+                            leak = {f: [n for n in names if n in ignored] for f, names in probe.file_items.items()}
+                            if any(leak.values()):
+                                return {'reproduced': True, 'setting': setting, 'ignored_items_passed_to_transform_file': leak}
+                        if not file_graph:
+                            pos = {n: k for k, n in enumerate(got)}
+                            for a, b in edges:
+                                if a in pos and b in pos and (pos[a] > pos[b]) != reverse:
+                                    return {'reproduced': True, 'setting': setting, 'order': got, 'edge': [a, b]}
+        return {'reproduced': False}
+    finally:
+        shutil.rmtree(tmp, ignore_errors=True)
+
+
 def main():
+    if sys.argv[1] == '--scheduler':
+        print(json.dumps(replay_scheduler({}), default=str))
+        return
     rec = json.load(open(sys.argv[1]))
     inp = rec.get('inputs') or {}
     fn = inp.get('function', '')
@@ -145,6 +228,8 @@ def main():
         out = replay_cmake(inp)
     elif fn == 'Transformation.apply_file':
         out = replay_apply_file(inp)
+    elif fn in ('_get_definition_items', 'SFilter', 'process_transformation'):
+        out = replay_scheduler(inp)
     else:
         out = {'reproduced': False, 'error': 'no replay for %r' % fn}
     print(json.dumps(out, default=str))
